@@ -425,7 +425,7 @@ def learn_expected(root: str) -> dict[int, Any]:
 
 
 # =========================================================================== client commands / status file lifecycle
-IDLE_TIMEOUT = 8      # seconds; --timeout of daemons in histories with an Idle step
+IDLE_TIMEOUT = 12      # seconds; --timeout of daemons in histories with an Idle step
 
 
 def replay_lifecycle(args: tuple[int, list[dict[str, Any]], str]) -> tuple[str | None, list[Any]]:
@@ -443,6 +443,7 @@ def replay_lifecycle(args: tuple[int, list[dict[str, Any]], str]) -> tuple[str |
     # histories with an idle exit start their daemons with a short --timeout; every other history keeps the default (none)
     idle_hist = any(e["cmd"] == "idle" for e in hist)
     tmo = ["--timeout", str(IDLE_TIMEOUT)] if idle_hist else []
+    t_contact = time.time()
 
     def cur_pid() -> int | None:
         try:
@@ -482,6 +483,13 @@ def replay_lifecycle(args: tuple[int, list[dict[str, Any]], str]) -> tuple[str |
             c = e["cmd"]
             for p0 in pids:
                 pid_alive(p0)              # reap daemons that have exited
+            if idle_hist and c != "idle" and i > 0 and hist[i - 1]["alive"] and time.time() - t_contact > 0.4 * IDLE_TIMEOUT:
+                # the live daemon's idle time (counted from its last accepted connection, which is not earlier than the
+                # start of the last command) may run out before this command reaches it: not comparable, never an alarm
+                seen.append(["slow", "inconclusive: %.1f s since the last command" % (time.time() - t_contact)])
+                return None, seen
+            if not (c == "start" and i > 0 and hist[i - 1]["alive"]):
+                t_contact = time.time()        # `start` with a live daemon only reads the status file: no connection, no reset
             if c == "extkill":
                 pid = cur_pid()
                 if pid is not None and pid_alive(pid):
